@@ -512,6 +512,12 @@ func (w *inotify) handleEvent(inEvent *unix.InotifyEvent, buf *[65536]byte, offs
 		/// New directory created: set up watch on it.
 		if isDir && ev.Has(Create) {
 			err := w.register(ev.Name, watch.flags, true)
+			// The directory may already have been removed or renamed again
+			// by the time we get here; that's ordinary filesystem activity
+			// and not an error (its own events will follow).
+			if errors.Is(err, unix.ENOENT) {
+				err = nil
+			}
 			if !w.sendError(err) {
 				return Event{}, false
 			}
